@@ -246,8 +246,9 @@ def violate(c, kind, pick):
                 continue
             for side in "NSEW":
                 ks = [q for q in range(1, len(cfg[i])) if roles[i][q] == side]
-                if len(ks) == 2:
-                    cand.append((i, side, ks))
+                ks.sort(key=lambda q: cfg[i][q][0 if side in "NS" else 1])
+                for j in range(len(ks) - 1):  # every pair of neighbours along the side (1st-2nd, 2nd-3rd, ...)
+                    cand.append((i, side, (ks[j], ks[j + 1])))
         p = choose(cand)
         if p is None:
             return None
@@ -419,6 +420,8 @@ def run_floorplan(c):
             cls.append("multi-rect-fixed")
         if any(sum(1 for v in m["struct"].values() if v >= 2) >= 2 for m in c["modules"]):
             cls.append("two-sides-with-two-branches")
+        if any(v >= 3 for m in c["modules"] for v in m["struct"].values()):
+            cls.append("three-branches-on-one-side")
         if any(m.get("order") and m["order"] != sorted(m["order"]) and m["kind"] != "soft" for m in c["modules"]):
             cls.append("hard-branches-listed-out-of-order")
         branch = any(sum(m["struct"].values()) > 0 for m in c["modules"])
@@ -441,4 +444,4 @@ def case_s(draw):
 def subchecks():
     return [Sub("floorplans", run_floorplan, strategy=case_s(), n_quick=3000, n_thorough=60000, shrink_quick=True,
                 required=tuple("viol-" + k for k in VIOLATIONS) + ("kind-soft", "kind-hard", "kind-fixed", "multi-rect-hard",
-                                                                    "multi-rect-fixed", "ints-and-floats", "two-sides-with-two-branches", "hard-branches-listed-out-of-order"))]
+                                                                    "multi-rect-fixed", "ints-and-floats", "two-sides-with-two-branches", "hard-branches-listed-out-of-order", "three-branches-on-one-side"))]
